@@ -7,11 +7,12 @@
      (b) not looser, connective: both ends of the connective's new interval are attained by feasible assignments
          (And; Or by duality) -- explicit witnesses on the segment between the corners of the operand box;
      (c) no feasible assignment (operand box non-empty): the connective's new bounds are crossed = contradiction (And).
-   NOT PROVED (partial, named so): `C03_operands_attained_partial` -- that both ends of every OPERAND's new interval
-   are attained; and (b),(c) for Implies.  Both are checked on the implementation against an independent exact
-   interval-arithmetic oracle by the check. *)
+     (b') not looser, operands of an And: both ends of every positively weighted operand's new interval are attained.
+   NOT PROVED (partial): operand attainment for Or / Implies (`C03_operands_attained_statement`, they are the
+   negation-duals of the And case) and (b),(c) for Implies.  These are checked on the implementation against an
+   independent exact interval-arithmetic oracle by the check. *)
 From LNN Require Import Num Neuron Node PropEngine.
-From LNN.proofs Require Import NodeProofs NeuronProofs PropProofs MonoProofs EvalProofs HullProofs.
+From LNN.proofs Require Import NodeProofs NeuronProofs PropProofs MonoProofs EvalProofs HullProofs HullOperandProofs.
 Open Scope Q_scope.
 
 Theorem C03_not_tighter : forall c p y bs xs, conn_wf c p (length xs) -> wf_bnd y -> Forall (fun x => 0 <= x <= 1) xs ->
@@ -46,7 +47,20 @@ Theorem C03_segment : forall p bs v, nonneg (weights p) -> Forall (fun b => lo b
 Proof. exact and_f_segment. Qed.
 Print Assumptions C03_segment.
 
-(* the statement that is NOT proved (kept visible): *)
+(* (b) for the OPERANDS of an And: both ends of every positively weighted operand's new interval are attained by
+   feasible assignments (every arity, weights >= 0, any bias, alpha = 1) *)
+Theorem C03_and_operand_lower_attained : forall p y bs x0 k, nonneg (weights p) -> wf_bnd y -> ordered_all bs ->
+  length (weights p) = length bs -> feasible CAnd p y bs x0 -> (k < length bs)%nat -> 0 < nth k (weights p) 0 -> alpha p == 1 ->
+  exists xs, feasible CAnd p y bs xs /\ nth k xs 0 == lo (nth k (step_x CAnd p y bs) unknown).
+Proof. intros. eapply operand_lower_attained; eassumption. Qed.
+Print Assumptions C03_and_operand_lower_attained.
+Theorem C03_and_operand_upper_attained : forall p y bs x0 k, nonneg (weights p) -> wf_bnd y -> ordered_all bs ->
+  length (weights p) = length bs -> feasible CAnd p y bs x0 -> (k < length bs)%nat -> 0 < nth k (weights p) 0 -> alpha p == 1 ->
+  exists xs, feasible CAnd p y bs xs /\ nth k xs 0 == hi (nth k (step_x CAnd p y bs) unknown).
+Proof. intros. eapply operand_upper_attained; eassumption. Qed.
+Print Assumptions C03_and_operand_upper_attained.
+
+(* the general statement (all three connectives); proved above for And, NOT proved for Or / Implies (kept visible): *)
 Definition C03_operands_attained_statement : Prop :=
   forall c p y bs k, conn_wf c p (length bs) -> alpha p == 1 -> wf_bnd y -> ordered_all bs ->
   (exists xs, feasible c p y bs xs) -> (k < length bs)%nat -> 0 < nth k (weights p) 0 ->
